@@ -223,8 +223,9 @@ def _alarm(signum, frame):
     raise ScenarioTimeout()
 
 
-def guarded_impl(mod, sc, seconds=20):
+def guarded_impl(mod, sc, seconds=None):
     """run one scenario on the implementation under a watchdog"""
+    seconds = seconds or getattr(mod, "WATCHDOG", 20)
     old = signal.signal(signal.SIGALRM, _alarm)
     signal.alarm(seconds)
     try:
